@@ -2,9 +2,10 @@
 
 // C12: direct harness on the real opdb.OrderedWriter with a store fake that parks every Store operation and lets the
 // case complete it successfully or with a transient error.
-//   case: ow op...      pa:<k>:<v> PutAsync   ps:<k>:<v> Put (sync)   del:<k> Delete (sync)   ok:<k> / err:<k> complete
-//                       the operation of key k that is at the store
-//   out : store=<k>:<v|->,.. log=<effects in the order they reached the store> infl=<ops at the store> res=<per issue op>
+//
+//	case: ow op...      pa:<k>:<v> PutAsync   ps:<k>:<v> Put (sync)   del:<k> Delete (sync)   ok:<k> / err:<k> complete
+//	                    the operation of key k that is at the store
+//	out : store=<k>:<v|->,.. log=<effects in the order they reached the store> infl=<ops at the store> res=<per issue op>
 package opdb
 
 import (
